@@ -1027,14 +1027,15 @@ Proof. reflexivity. Qed.
 
 Section Loop.
 Variables (cond shift : Z) (body rest' : list instr) (once : bool).
-Variables (head back : Z) (inv : facts).
+Variables (head back : Z) (inv exitf : facts).
 Variables (pc2 pc' : Z) (stb stb' st' : sst).
 Notation fi := (st_of_facts inv).
 Notation ent := (add_nz (st_of_facts inv) (e_var (if memz cond (f_d inv) then axi cond else acell cond))).
 Notation LOOP := (ILoop cond shift body once :: rest').
 Hypothesis BODY : forall f A si sb, Rel A ent si sb -> bc_pc sb = head -> SimC (ir_exec w e false f body si) sb pc2 stb.
-Hypothesis REST : forall f A si sb, Rel A (if once then once_exit w stb' cond else fi) si sb -> bc_pc sb = back + 1 ->
+Hypothesis REST : forall f A si sb, Rel A (if once then once_exit w stb' cond else st_of_facts exitf) si sb -> bc_pc sb = back + 1 ->
   SimC (ir_exec w e false f rest' si) sb pc' st'.
+Hypothesis ENTX : once = true \/ entails w (once_exit w stb' cond) exitf = true.
 Hypothesis MOVE : after_move w code pc2 stb shift = Some (back, stb').
 Hypothesis BACKI : exists off, code_at code back = Some (BrNZ cond off) /\ back + off = head.
 Hypothesis AGB : agree w stb' cond = true.
@@ -1070,12 +1071,16 @@ Proof.
   pose proof (step_brnz sb cond off CA) as ST. rewrite <- (Rel_mem A stb' si sb cond R AGB) in ST.
   pose proof (entails_sound A stb' si sb inv R ENT) as RA.
   destruct (ir_read si cond =? 0) eqn:Z0.
-  - apply (SimC_reach _ sb (next sb) _ _ ST). destruct once eqn:ON.
-    + apply (REST f A); [|cbn; lia]. unfold once_exit. destruct (nonzero_in w stb' (cell_i stb' cond)) eqn:NZC.
-      * exfalso. apply (nonzero_in_sound A stb' si sb _ R NZC). destruct R as (RI1 & _).
-        rewrite <- (RI_read A stb' si cond RI1). apply Z.eqb_eq. exact Z0.
-      * apply (Rel_ext A stb' si sb); try reflexivity. exact R.
-    + apply (REST f (anchor_of si sb)). * apply (Rel_ext _ fi si sb); try reflexivity. exact RA. * cbn. lia.
+  - apply (SimC_reach _ sb (next sb) _ _ ST).
+    assert (RX : Rel A (once_exit w stb' cond) si sb).
+    { unfold once_exit. destruct (nonzero_in w stb' (cell_i stb' cond)) eqn:NZC; [|exact R].
+      exfalso. apply (nonzero_in_sound A stb' si sb _ R NZC). destruct R as (RI1 & _).
+      rewrite <- (RI_read A stb' si cond RI1). apply Z.eqb_eq. exact Z0. }
+    destruct once eqn:ON.
+    + apply (REST f A); [|cbn; lia]. apply (Rel_ext A _ si sb); try reflexivity. exact RX.
+    + destruct ENTX as [EX|EX]; [discriminate|].
+      apply (REST f (anchor_of si sb)); [|cbn; lia]. apply (Rel_ext _ _ si sb); try reflexivity.
+      apply (entails_sound A _ si sb exitf RX EX).
   - apply (SimC_reach _ sb (bc_set_pc sb (bc_pc sb + off)) _ _ ST).
     apply (head_from_back f IH).
     + rewrite (anchor_ext si sb si (bc_set_pc sb (bc_pc sb + off))) by reflexivity.
@@ -1242,7 +1247,7 @@ Proof.
           exact (scanN_sound cond shift rest' once (bc_pc sb1) pc' st1 st' CB REST ALL SNZ f (anchor_of si1 sb1) si1 sb1
                    (scan_start shift st1 ALL A si1 sb1 R1) eq_refl).
       + (* general loop *)
-        destruct cs as [|[head back inv|?] cs1]; try discriminate.
+        destruct cs as [|[head back inv exitf|?] cs1]; try discriminate.
         match type of H with (if ?c then _ else _) = _ => destruct c eqn:CK; [|discriminate] end.
         destruct (tv_block n w fuse code body head back _ cs1) as [[[pc2 stb] cs2]|] eqn:TB; [|discriminate].
         destruct (after_move w code pc2 stb shift) as [[pc3 stb']|] eqn:AM; [|discriminate].
@@ -1253,13 +1258,16 @@ Proof.
         assert (BODY : forall f A si sb, Rel A (add_nz (st_of_facts inv) (e_var (if memz cond (f_d inv) then axi cond else acell cond))) si sb ->
                   bc_pc sb = head -> SimC (ir_exec w e false f body si) sb pc2 stb).
         { intros f0 A0 si0 sb0 R0 P0. apply (IH _ _ _ _ _ _ _ _ _ TB ltac:(destruct once; split_ands; repeat match goal with Hx : (_ =? _) = true |- _ => apply Z.eqb_eq in Hx end; lia) f0 A0 si0 sb0 R0 P0). }
-        assert (REST : forall f A si sb, Rel A (if once then once_exit w stb' cond else st_of_facts inv) si sb -> bc_pc sb = back + 1 ->
+        assert (REST : forall f A si sb, Rel A (if once then once_exit w stb' cond else st_of_facts exitf) si sb -> bc_pc sb = back + 1 ->
                   SimC (ir_exec w e false f rest' si) sb pc' st').
         { intros f0 A0 si0 sb0 R0 P0. apply (IH _ _ _ _ _ _ _ _ _ H ltac:(destruct once; split_ands; repeat match goal with Hx : (_ =? _) = true |- _ => apply Z.eqb_eq in Hx end; lia) f0 A0 si0 sb0 R0 P0). }
         assert (BACKI : exists off, code_at code back = Some (BrNZ cond off) /\ back + off = head).
         { destruct (code_at code back) as [[| | | | | |c off| | | |]|]; try discriminate. split_ands.
           repeat match goal with Hx : (_ =? _) = true |- _ => apply Z.eqb_eq in Hx end. subst c. exists off. split; [reflexivity|assumption]. }
-        pose proof (back_sound cond shift body rest' once head back inv pc2 pc' stb stb' st' BODY REST AM BACKI ltac:(assumption) ltac:(assumption)) as BK.
+        assert (ENTX : once = true \/ entails w (once_exit w stb' cond) exitf = true).
+        { match goal with Hx : (once || entails w (once_exit w stb' cond) exitf) = true |- _ =>
+            apply orb_prop in Hx; destruct Hx as [Hx|Hx]; [left|right]; exact Hx end. }
+        pose proof (back_sound cond shift body rest' once head back inv exitf pc2 pc' stb stb' st' BODY REST ENTX AM BACKI ltac:(assumption) ltac:(assumption)) as BK.
         pose proof (entails_sound A st1 si1 sb1 inv R1 ltac:(assumption)) as RA.
         destruct f as [|f]; [exact I|]. rewrite ir_loop_unfold.
         destruct once.
@@ -1276,7 +1284,8 @@ Proof.
           rewrite <- (Rel_mem A st1 si1 sb1 cond R1 ltac:(assumption)) in ST.
           destruct (ir_read si1 cond =? 0) eqn:Z0.
           -- apply (SimC_reach _ sb1 _ _ _ ST). apply (REST f (anchor_of si1 sb1)); [|cbn; lia].
-             apply (Rel_ext _ _ si1 sb1); try reflexivity. exact RA.
+             apply (Rel_ext _ _ si1 sb1); try reflexivity.
+             match goal with Hx : (false || entails w st1 exitf) = true |- _ => cbn [orb] in Hx; apply (entails_sound A st1 si1 sb1 exitf R1 Hx) end.
           -- apply (SimC_reach _ sb1 _ _ _ ST).
              apply (head_from_back cond shift body rest' false head back inv pc2 pc' stb stb' st' BODY AM f (BK f)).
              ++ rewrite (anchor_ext si1 sb1 si1 (next sb1)) by reflexivity. apply (Rel_ext _ _ si1 sb1); try reflexivity. exact RA.
